@@ -5,24 +5,20 @@ use core::future::Future;
 use core::pin::Pin;
 use core::task::{Context, Poll, RawWaker, RawWakerVTable, Waker};
 
-pub enum Task {
-    Empty,
-    Thread(Box<dyn FnOnce()>),
-    Fut(Pin<Box<dyn Future<Output = ()>>>),
-    Done,
-}
-
+/// Task table. Closures and futures sit in two separate typed arrays of `Option<Box<dyn ..>>`
+/// (null-pointer niche, no payload-carrying enum): a fat pointer stored inside an enum payload is
+/// byte-punned by CBMC, becomes opaque, and with it everything the closure captured (probe
+/// pz_direct: a captured constant loop bound unwound to the global bound).
 pub const NTASK: usize = 8;
-pub static mut TASKS: [Task; NTASK] = [
-    Task::Empty,
-    Task::Empty,
-    Task::Empty,
-    Task::Empty,
-    Task::Empty,
-    Task::Empty,
-    Task::Empty,
-    Task::Empty,
-];
+pub const K_EMPTY: u8 = 0;
+pub const K_THREAD: u8 = 1;
+pub const K_FUT: u8 = 2;
+pub const K_DONE: u8 = 3;
+pub static mut KIND: [u8; NTASK] = [K_EMPTY; NTASK];
+/// raw fat pointers (Copy): reading them out of the static is a plain load; `Option::take` /
+/// `mem::replace` on a `Box<dyn ..>` go through a memcpy intrinsic and make the pointer opaque
+pub static mut THREADS: [Option<*mut (dyn FnOnce() + 'static)>; NTASK] = [None; NTASK];
+pub static mut FUTS: [Option<*mut (dyn Future<Output = ()> + 'static)>; NTASK] = [None; NTASK];
 pub static mut NTASKS: usize = 0;
 
 #[derive(Clone, Copy, PartialEq, Debug)]
@@ -36,6 +32,27 @@ pub enum Yield {
     GcSent,
 }
 pub static mut YIELD_HOOK: Option<fn(Yield)> = None;
+
+/// INLINE mode (inversion of control). A pointer *into* a heap object (a `&self` of something a
+/// boxed closure or future captured) is opaque to CBMC - probe pt_i: `opt_m(&opts)` inside a boxed
+/// closure lost a constant that direct field access kept - and the real code passes such
+/// references everywhere (`store.iter_frames(..)` on the captured Store). So instead of boxing:
+///  * `std::thread::spawn(f)` runs `THREAD_PRE`, then `f()` on the spawner's stack, then
+///    `THREAD_POST` (legal schedule: the thread runs to completion at once; other actors still
+///    interleave at its yield points);
+///  * `tokio::spawn(fut)` pins `fut` on the spawner's stack and hands `Pin<&mut dyn Future>` to
+///    `TASK_HOOK`, which drives the rest of the scenario (polls, appends, consumer) before
+///    returning; the task is dropped when the hook returns.
+pub static mut INLINE: bool = false;
+pub static mut THREAD_PRE: Option<fn()> = None;
+pub static mut THREAD_POST: Option<fn()> = None;
+pub static mut TASK_HOOK: Option<fn(Pin<&mut dyn Future<Output = ()>>)> = None;
+pub fn set_inline(b: bool) {
+    unsafe { INLINE = b }
+}
+pub fn inline() -> bool {
+    unsafe { INLINE }
+}
 static mut IN_HOOK: bool = false;
 
 #[allow(static_mut_refs)]
@@ -43,12 +60,18 @@ pub fn reset() {
     unsafe {
         let mut i = 0;
         while i < NTASK {
-            TASKS[i] = Task::Empty;
+            KIND[i] = K_EMPTY;
+            THREADS[i] = None;
+            FUTS[i] = None; // (native: leaks the boxes of a previous scenario, deliberately)
             i += 1;
         }
         NTASKS = 0;
         YIELD_HOOK = None;
         IN_HOOK = false;
+        INLINE = false;
+        THREAD_PRE = None;
+        THREAD_POST = None;
+        TASK_HOOK = None;
     }
 }
 
@@ -69,55 +92,60 @@ pub fn yield_point(y: Yield) {
 }
 
 #[allow(static_mut_refs)]
-fn add(t: Task) -> usize {
+fn slot(kind: u8) -> usize {
     unsafe {
         if NTASKS >= NTASK {
             super::nd::bound_exceeded("task table");
             return 0;
         }
         let i = NTASKS;
-        TASKS[i] = t;
+        KIND[i] = kind;
         NTASKS += 1;
         i
     }
 }
+#[allow(static_mut_refs)]
 pub fn spawn_thread(f: Box<dyn FnOnce()>) -> usize {
-    add(Task::Thread(f))
+    let i = slot(K_THREAD);
+    unsafe { THREADS[i] = Some(Box::into_raw(f)) };
+    i
 }
+#[allow(static_mut_refs)]
 pub fn spawn_future(f: Pin<Box<dyn Future<Output = ()>>>) -> usize {
-    add(Task::Fut(f))
+    let i = slot(K_FUT);
+    unsafe { FUTS[i] = Some(Box::into_raw(Pin::into_inner_unchecked(f))) };
+    i
 }
 #[allow(static_mut_refs)]
 pub fn ntasks() -> usize {
     unsafe { NTASKS }
 }
-#[allow(static_mut_refs)]
 pub fn is_thread(i: usize) -> bool {
-    unsafe { matches!(TASKS[i], Task::Thread(_)) }
+    unsafe { KIND[i] == K_THREAD }
 }
-#[allow(static_mut_refs)]
 pub fn is_future(i: usize) -> bool {
-    unsafe { matches!(TASKS[i], Task::Fut(_)) }
+    unsafe { KIND[i] == K_FUT }
 }
-#[allow(static_mut_refs)]
 pub fn is_done(i: usize) -> bool {
-    unsafe { matches!(TASKS[i], Task::Done) }
+    unsafe { KIND[i] == K_DONE }
 }
 
 /// Run captured thread `i` to completion (its yield points may nest other actions).
 #[allow(static_mut_refs)]
 pub fn run_thread(i: usize) -> bool {
     unsafe {
-        let t = core::mem::replace(&mut TASKS[i], Task::Done);
-        match t {
-            Task::Thread(f) => {
+        if KIND[i] != K_THREAD {
+            return false;
+        }
+        KIND[i] = K_DONE;
+        match THREADS[i] {
+            Some(p) => {
+                THREADS[i] = None;
+                let f: Box<dyn FnOnce()> = Box::from_raw(p);
                 f();
                 true
             }
-            other => {
-                TASKS[i] = other;
-                false
-            }
+            None => false,
         }
     }
 }
@@ -139,27 +167,23 @@ pub fn noop_waker() -> Waker {
 #[allow(static_mut_refs)]
 pub fn poll_task(i: usize) -> bool {
     unsafe {
-        let t = core::mem::replace(&mut TASKS[i], Task::Done);
-        match t {
-            Task::Fut(mut f) => {
-                let w = noop_waker();
-                let mut cx = Context::from_waker(&w);
-                match f.as_mut().poll(&mut cx) {
-                    Poll::Ready(()) => {
-                        drop(f);
-                        true
-                    }
-                    Poll::Pending => {
-                        TASKS[i] = Task::Fut(f);
-                        false
-                    }
-                }
-            }
-            other => {
-                TASKS[i] = other;
-                false
+        if KIND[i] != K_FUT {
+            return false;
+        }
+        let w = noop_waker();
+        let mut cx = Context::from_waker(&w);
+        let ready = match FUTS[i] {
+            Some(p) => matches!(Pin::new_unchecked(&mut *p).poll(&mut cx), Poll::Ready(())),
+            None => false,
+        };
+        if ready {
+            KIND[i] = K_DONE;
+            if let Some(p) = FUTS[i] {
+                FUTS[i] = None;
+                drop(Box::from_raw(p));
             }
         }
+        ready
     }
 }
 
@@ -174,8 +198,11 @@ pub fn poll_once<F: Future>(f: Pin<&mut F>) -> Option<F::Output> {
 }
 
 /// Drive a future that is expected to complete without waiting on anything external.
+/// The future is pinned on the STACK: a generator on the heap is opaque to CBMC's constant
+/// propagation (probe px_future: a captured constant loop bound unwound to the global bound,
+/// stack-pinned: exactly), and `Store::read` is an `async fn` whose whole body is such a future.
 pub fn block_on_ready<F: Future>(f: F) -> F::Output {
-    let mut f = Box::pin(f);
+    let mut f = core::pin::pin!(f);
     let mut n = 0;
     loop {
         if let Some(v) = poll_once(f.as_mut()) {
@@ -187,4 +214,11 @@ pub fn block_on_ready<F: Future>(f: F) -> F::Output {
             panic!("block_on_ready: pending");
         }
     }
+}
+
+/// poll a (stack-pinned) task once
+pub fn poll_dyn(f: &mut Pin<&mut dyn Future<Output = ()>>) -> bool {
+    let w = noop_waker();
+    let mut cx = Context::from_waker(&w);
+    matches!(f.as_mut().poll(&mut cx), Poll::Ready(()))
 }
